@@ -569,6 +569,9 @@ def check_ctx_rt(case, res):
         if "to_json_error" not in r:
             bad.append("a record with a reserved key was serialised instead of refused")
         return bad
+    if any(k in RESERVED for k, _ in pairs) and "to_json_error" in r:
+        return bad      # a reserved TOP-LEVEL key refused at serialisation (the behaviour with the fix for
+                        # C10:context_top_level_reserved_key, = EntJson.context_to_json_fixed): nothing is altered
     if "json" not in r:
         return bad + ["context serialisation failed on representable data"]
     if canon_json(r["json"]) != canon_json({k: explicit(v) for k, v in pairs}):
@@ -773,6 +776,8 @@ def compare_model(what, cmd, rust, model):
     if what == "to_json":
         if model[0] == "ok":
             if "json" not in rust:
+                if any(k in RESERVED for k, _ in cmd.get("pairs", [])):
+                    return None     # agrees with EntJson.context_to_json_fixed (top-level reserved key refused)
                 return "model serialises, implementation refuses"
             return None if canon_json(sx_json(model[1])) == canon_json(rust["json"]) else "serialised trees differ"
         return None if "to_json_error" in rust else "model refuses (%s), implementation serialises" % model[1]
